@@ -1161,6 +1161,12 @@ func main() {
 		if is, ok := fd.Body.List[0].(*ast.IfStmt); ok && len(is.Body.List) == 1 && src(is.Body.List[0]) == "return j[0].toJSON()" {
 			return is.Cond
 		}
+		// the inverted form: `if <not single> { ...array...; return } ; return j[0].toJSON()`
+		if n := len(fd.Body.List); n >= 2 && src(fd.Body.List[n-1]) == "return j[0].toJSON()" {
+			if is, ok := fd.Body.List[0].(*ast.IfStmt); ok && is.Else == nil && is.Init == nil && endsInReturn(is.Body.List) {
+				return &ast.UnaryExpr{Op: token.NOT, X: &ast.ParenExpr{X: is.Cond}}
+			}
+		}
 		return nil
 	}, map[string]string{"len(j)": "n", "j[0].batch": "b0"})
 	// hdr.Recv: receive-buffer reuse policy and the preallocation bound
